@@ -66,6 +66,11 @@ def plans(seed, tier, count):
         for u in (0.05, 0.3, 0.55, 0.8, 0.95):
             out.append({'property': PROP, 'seed': core.H('fix05fam', k, u), 'case': c, 'knobs': {}, 'channels': {}, 'tf': 0.3,
                         'segments_cut': [], 'clock': None, 'corrupt': None, 'offline': {'unit': u}})
+    # residuals that are not numbers: a NaN in the hand-over / a zero droop; every other residual stays zero
+    for k, (c, kind) in enumerate([('kundur/kundur_full.xlsx', 'v_nan'), ('kundur/kundur_full.xlsx', 'gov_R0'), ('ieee14/ieee14_fault.xlsx', 'v_nan'),
+                                   ('ieee39/ieee39_full.xlsx', 'gov_R0')]):
+        out.append({'property': PROP, 'seed': core.H('fix05nan', k), 'case': c, 'knobs': {}, 'channels': {}, 'tf': 0.2,
+                    'segments_cut': [], 'clock': None, 'corrupt': {'kind': kind, 'bus_frac': 0.4, 'amount': 0.0}})
     i = 0
     while len(out) < count:
         out.append({'stub': True, 'seed': core.H(seed, PROP, i), 'tier': tier})
@@ -102,7 +107,7 @@ def elaborate(stub):
     f = stream(seed, 'corrupt')
     corrupt = None
     if f.random() < 0.25:
-        corrupt = {'kind': f.choice(['v', 'a', 'v_small']), 'bus_frac': f.random(), 'amount': f.choice([0.02, 0.05, 0.1])}
+        corrupt = {'kind': f.choice(['v', 'a', 'v_small', 'v_nan', 'gov_R0']), 'bus_frac': f.random(), 'amount': f.choice([0.02, 0.05, 0.1])}
     o = stream(seed, 'offline')
     offline = None
     if o.random() < 0.2 and not corrupt:
@@ -211,6 +216,17 @@ def execute(plan):
                 ss.PFlow.y_sol[v_addr[b]] *= (1 + corrupt['amount'])
             elif corrupt['kind'] == 'v_small':
                 ss.PFlow.y_sol[v_addr[b]] *= (1 + 2e-3)
+            elif corrupt['kind'] == 'v_nan':
+                # a not-a-number in the hand-over: the residuals it reaches are NaN, all others stay zero
+                ss.PFlow.y_sol[v_addr[b]] = np.nan
+            elif corrupt['kind'] == 'gov_R0':
+                # inconsistent data that makes one residual NaN (0 * 1/0) and leaves every other one at zero: zero droop
+                gov = next((m for m in (ss.TGOV1, ss.TGOV1N) if m.n), None)
+                if gov is None:
+                    ss.PFlow.y_sol[v_addr[b]] = np.nan
+                else:
+                    gi = int(corrupt['bus_frac'] * gov.n) % gov.n
+                    gov.alter('R', gov.idx.v[gi], 0.0)
             else:
                 ss.PFlow.y_sol[a_addr[b]] += corrupt['amount']
             probes['corrupted_handover'] = 1
@@ -262,7 +278,8 @@ def execute(plan):
         if ok is False and ss.exit_code <= ec0:
             v.append(V('init_report', 'initialisation failed but the exit code did not increase', what='exit_code'))
         # --- hand-over: bus slots carry the (possibly corrupted) power-flow values exactly
-        if not (np.array_equal(ss.dae.y[a_addr], y_hand[a_addr]) and np.array_equal(ss.dae.y[v_addr], y_hand[v_addr])):
+        if not (np.array_equal(ss.dae.y[a_addr], y_hand[a_addr], equal_nan=True) and
+                np.array_equal(ss.dae.y[v_addr], y_hand[v_addr], equal_nan=True)):
             d = max(float(np.max(np.abs(ss.dae.y[a_addr] - y_hand[a_addr]))), float(np.max(np.abs(ss.dae.y[v_addr] - y_hand[v_addr]))))
             v.append(V('handover', 'bus angles/voltages after dynamic initialisation differ from the power-flow solution by %.3g' % d,
                        what='bus_values'))
